@@ -50,6 +50,85 @@ theorem weighted_cons (w v : ℝ) (ws vals : List ℝ) :
 
 /-! concrete instances -/
 
+/-! ### algebra of the weighted function (what "can be optimised wherever a plain Function can" rests on) -/
+
+/-- one component with weight one is that component -/
+theorem weighted_single_one (v : ℝ) : weighted [(1 : ℝ)] [v] = v := by
+  rw [weighted_eq_sum]; simp
+
+/-- one component with weight `w` -/
+theorem weighted_single (w v : ℝ) : weighted [w] [v] = w * v := by
+  rw [weighted_eq_sum]; simp
+
+/-- scaling every weight scales the value -/
+theorem weighted_smul (c : ℝ) (ws vals : List ℝ) :
+    weighted (ws.map (c * ·)) vals = c * weighted ws vals := by
+  rw [weighted_eq_sum, weighted_eq_sum]
+  induction ws generalizing vals with
+  | nil => simp
+  | cons w ws ih =>
+    cases vals with
+    | nil => simp
+    | cons v vals =>
+      simp only [List.map_cons, List.zip_cons_cons, List.sum_cons]
+      rw [ih vals]; ring
+
+/-- all weights zero: the value is zero whatever the components return -/
+theorem weighted_zero_weights (n : ℕ) (vals : List ℝ) : weighted (List.replicate n (0 : ℝ)) vals = 0 := by
+  rw [weighted_eq_sum]
+  induction n generalizing vals with
+  | zero => simp
+  | succ n ih =>
+    cases vals with
+    | nil => simp
+    | cons v vals =>
+      simp only [List.replicate_succ, List.zip_cons_cons, List.map_cons, List.sum_cons]
+      rw [ih vals]; ring
+
+/-- non-negative weights and component values bounded below by `m`: the value is at least `m · Σ w`
+    (so a weighted function of benchmarks with minimum 0 never goes below 0) -/
+theorem weighted_lower_bound (m : ℝ) (ws vals : List ℝ) (h : ws.length = vals.length)
+    (hw : ∀ w ∈ ws, 0 ≤ w) (hv : ∀ v ∈ vals, m ≤ v) : m * ws.sum ≤ weighted ws vals := by
+  rw [weighted_eq_sum]
+  induction ws generalizing vals with
+  | nil => simp
+  | cons w ws ih =>
+    cases vals with
+    | nil => simp at h
+    | cons v vals =>
+      simp only [List.zip_cons_cons, List.map_cons, List.sum_cons]
+      have h1 := ih vals (by simpa using h) (fun x hx => hw x (List.mem_cons_of_mem _ hx))
+        (fun x hx => hv x (List.mem_cons_of_mem _ hx))
+      have h2 : w * m ≤ w * v := mul_le_mul_of_nonneg_left (hv v (by simp)) (hw w (by simp))
+      nlinarith
+
+/-- non-negative weights: the value is monotone in every component value -/
+theorem weighted_mono (ws vals vals' : List ℝ) (h : vals.length = vals'.length)
+    (hw : ∀ w ∈ ws, 0 ≤ w) (hv : ∀ i (h1 : i < vals.length) (h2 : i < vals'.length), vals[i] ≤ vals'[i]) :
+    weighted ws vals ≤ weighted ws vals' := by
+  rw [weighted_eq_sum, weighted_eq_sum]
+  induction ws generalizing vals vals' with
+  | nil => simp
+  | cons w ws ih =>
+    cases vals with
+    | nil => cases vals' with
+      | nil => simp
+      | cons _ _ => simp at h
+    | cons v vals =>
+      cases vals' with
+      | nil => simp at h
+      | cons v' vals' =>
+        simp only [List.zip_cons_cons, List.map_cons, List.sum_cons]
+        have h0 : v ≤ v' := hv 0 (by simp) (by simp)
+        have h1 := ih vals vals' (by simpa using h) (fun x hx => hw x (List.mem_cons_of_mem _ hx))
+          (fun i a b => by
+            have := hv (i + 1) (by simpa using a) (by simpa using b)
+            simpa only [List.getElem_cons_succ] using this)
+        have h2 : w * v ≤ w * v' := mul_le_mul_of_nonneg_left h0 (hw w (by simp))
+        linarith
+
+example : (∀ w ∈ [(0.5 : ℝ), 2], 0 ≤ w) ∧ (∀ v ∈ [(3 : ℝ), 1], 1 ≤ v) := by
+  constructor <;> intro x hx <;> simp at hx <;> rcases hx with rfl | rfl <;> norm_num
 example : weighted [(1 : ℝ), 2, 3] [4, 5, 6] = 32 := by
   rw [weighted_eq_sum]; norm_num
 
@@ -66,5 +145,11 @@ example : ([(1 : ℝ), 2, 3]).length = ([(4 : ℝ), 5, 6]).length := rfl
 #print axioms weighted_nil_left
 #print axioms weighted_nil_right
 #print axioms weighted_cons
+#print axioms weighted_single_one
+#print axioms weighted_single
+#print axioms weighted_smul
+#print axioms weighted_zero_weights
+#print axioms weighted_lower_bound
+#print axioms weighted_mono
 
 end Opy
